@@ -685,13 +685,51 @@ class Gen:
         return {"op": "set_diti", "index": rng.randint(1, 4)}
 
     # ------------------------------------------------------------------ invalid-argument faults
-    def gen_invalid(self, view):
+    def _poison(self, op, value):
+        """puts `value` into the volumes of op: as the scalar, or as one element of the list / matrix."""
+        from .geom import dec
+        rng = self.rng
+        key = "volume" if op["op"] == "distribute" else "volumes"
+        v = dec(op[key])
+        if isinstance(v, list) and v and rng.random() < 0.6:
+            if isinstance(v[0], list):
+                v[rng.randrange(len(v))][rng.randrange(len(v[0]))] = value
+            else:
+                v[rng.randrange(len(v))] = value
+            op[key] = enc(v)
+        else:
+            op[key] = enc(value)
+        op.pop("vtype", None)
+        return op
+
+    def gen_invalid(self, view, choices=None):
         """an operation that must be refused for a reason other than a volume limit."""
         rng = self.rng
+        if choices is None and self.cfg.get("no_evo_ops"):
+            choices = ["badwell", "semicolon_label", "semicolon_lc", "badtip", "lenmismatch", "badpart", "badwash", "huge",
+                       "negative", "nan", "dist_nontrough", "dist_col", "longlabel", "comps_len", "negative", "nan"]
         li = rng.randrange(len(self.labs))
         geo = self.geos[li]
-        choice = rng.choice(["badwell", "semicolon_label", "semicolon_lc", "badtip", "lenmismatch", "badpart",
-                             "badwash", "huge", "negative", "nan", "dist_nontrough", "dist_col", "longlabel", "comps_len"])
+        choice = rng.choice(choices or ["badwell", "semicolon_label", "semicolon_lc", "badtip", "lenmismatch", "badpart",
+                                        "badwash", "huge", "negative", "nan", "dist_nontrough", "dist_col", "longlabel",
+                                        "comps_len", "negative", "nan", "evo_multicol"])
+        if choice == "evo_multicol":
+            # an EVO script command can only address wells of one column; a selection that spans two must be refused
+            wide = [i for i, g in enumerate(self.geos) if g.cols >= 2 and not g.trough]
+            if self.device != "evo" or not wide:
+                choice = "negative"
+            else:
+                kind = rng.choice(["evo_aspirate", "evo_dispense"])
+                op = self.gen_evo(view, kind, intent="ok")
+                g2 = self.geos[op["lab"]]
+                if g2.cols < 2 or not isinstance(op["wells"], list) or len(op["wells"]) < 2:
+                    choice = "negative"
+                else:
+                    r, c = g2.parse(op["wells"][-1])
+                    op["wells"][-1] = g2.well_id(r, (c + 1) % g2.cols)
+                    op.pop("wcol", None)
+                    op["intent"] = "reject.invalid:evo_multicol"
+                    return op
         base = self.gen_transfer(view, "ok") if rng.random() < 0.5 else \
             self.gen_addremove(view, rng.choice(["aspirate", "dispense"]), intent="ok")
         op = base
@@ -743,9 +781,10 @@ class Gen:
                 op["intent"] = "reject.invalid:" + choice
             op["volumes"] = enc(7158279.0)
         elif choice == "negative":
-            op["volumes"] = enc(-1.0)
+            # clearly negative, or so slightly that a tolerant comparison lets it through (-2.8e-17 = 0.3 - 0.2 - 0.1)
+            op = self._poison(op, rng.choice([-1.0, -0.004, -1e-9, -5e-9, 0.3 - 0.2 - 0.1, -5e-324]))
         elif choice == "nan":
-            op["volumes"] = enc(math.nan)
+            op = self._poison(op, math.nan)
         elif choice == "dist_nontrough":
             plates = [i for i, g in enumerate(self.geos) if not g.trough]
             if not plates:
@@ -770,5 +809,8 @@ class Gen:
                 op["intent"] = "reject.invalid:" + choice
             from .geom import flatten_f
             n = len(flatten_f(op["wells"]))
-            op["comps"] = [enc(dyadic_composition(rng))] * (1 if n != 1 else 2)
+            m = rng.choice([1, n - 1, n + 1]) if n > 2 else (1 if n != 1 else 2)
+            op["comps"] = [enc(dyadic_composition(rng)) for _ in range(max(m, 1))]
+            if len(op["comps"]) == n:
+                op["comps"].append(enc(dyadic_composition(rng)))
         return op
